@@ -69,33 +69,51 @@ func AmountFromString(val string) (Amount, error) {
 		return a, fmt.Errorf("amount must contain 0 or 1 decimal separators: %v", val)
 	}
 
-	// Parse the "major" part
-	v, err := strconv.ParseInt(x[0], 10, 64)
-	if err != nil {
+	// Check the "major" part
+	if err := checkDigits(x[0]); err != nil {
 		return a, fmt.Errorf("invalid major number '%v', %w", val, err)
 	}
+	digits := x[0]
 	e := uint32(0)
-	v2 := int64(0)
 
-	// Parse the decimal places (if present)
+	// Check the decimal places (if present)
 	if l == 2 {
-		v2, err = strconv.ParseInt(x[1], 10, 64)
-		if err != nil {
+		if err := checkDigits(x[1]); err != nil {
 			return a, fmt.Errorf("invalid decimal number '%v', %w", val, err)
 		}
 		e = uint32(len(x[1]))
-		v = v * intPow(10, e)
-		v += v2
+		digits += x[1]
+	}
+
+	// Parse all the digits together, with the sign, so that any value
+	// that does not fit is reported instead of overflowing.
+	if n {
+		digits = "-" + digits
+	}
+	v, err := strconv.ParseInt(digits, 10, 64)
+	if err != nil {
+		return a, fmt.Errorf("invalid number '%v', %w", val, err)
 	}
 
 	// Prepare the result
-	if n {
-		a.value = -v
-	} else {
-		a.value = v
-	}
+	a.value = v
 	a.exp = e
 	return a, nil
+}
+
+// checkDigits ensures the provided string only contains the digits 0 to 9,
+// and at least one of them, providing the same error as the strconv package
+// otherwise.
+func checkDigits(s string) error {
+	if len(s) == 0 {
+		return &strconv.NumError{Func: "ParseInt", Num: s, Err: strconv.ErrSyntax}
+	}
+	for i := 0; i < len(s); i++ {
+		if s[i] < '0' || s[i] > '9' {
+			return &strconv.NumError{Func: "ParseInt", Num: s, Err: strconv.ErrSyntax}
+		}
+	}
+	return nil
 }
 
 // AmountFromHumanString removes any excess decimal places, commas, or
